@@ -102,6 +102,8 @@ def make_pelt(n, m, p=1, mode="c02", xdtype="float"):
 
     def run(eng, acc):
         from skchange.change_detectors import PELT
+        from .prelude import prelude
+        prelude("PELT", n, p, m, xdtype=xdtype)
         user_cost = TableCost(p=p)
         try:
             det = PELT(user_cost, penalty_scale=SymReal(sigma), min_segment_length=m)
@@ -142,6 +144,8 @@ def make_pelt(n, m, p=1, mode="c02", xdtype="float"):
 
 def _native(n, m, p, values, sigma, xdtype="float"):
     from skchange.change_detectors import PELT
+    from .prelude import prelude
+    prelude("PELT", n, p, m, xdtype=xdtype)
     with proxy.native():
         det = PELT(TableCost(p=p, values=values), penalty_scale=float(sigma), min_segment_length=m)
         X = dummy_X(n, p) if xdtype == "float" else dummy_X(n, p).astype("int64")
